@@ -20,8 +20,9 @@
 (***************************************************************************)
 EXTENDS Session, TraceKit
 VARIABLES ref,
-          dirty     \* date objects whose convention was set through a handle in this session
-tvars == << l, rej, live, of, holv, ref, dirty >>
+          dirty,    \* date objects whose convention was set through a handle in this session
+          nfix      \* fix-ups applied to each holiday day in this session
+tvars == << l, rej, live, of, holv, names, ref, dirty, nfix >>
 TrInstDate(t) == IF t = 1 THEN 1 ELSE 0
 
 SessRef ==
@@ -32,9 +33,10 @@ SessRef ==
                                                       /\ Len(e.lunar) = NInst /\ Len(e.hol) = NDate)
                 \* the reference itself: the two conventions differ somewhere (23:xx instants), fix-ups change their day
                 + Chk("C09.session.reference-vacuous", "sect", \E t \in Instants : e.lunar[t][1][1] # e.lunar[t][2][1])
-                + Chk("C09.session.reference-vacuous", "fix", \A d \in Dates : \E k \in FixIds : e.hol[d][k + 1] # e.hol[d][1]))
+                + Chk("C09.session.reference-vacuous", "fix", \A d \in Dates : \E k \in FixIds : e.hol[d][k + 1][1] # e.hol[d][1][1])
+                + Chk("C09.session.reference-vacuous", "names", \E d \in Dates : \E k \in 0..NFix : e.hol[d][k + 1][1] # e.hol[d][k + 1][2]))
   /\ ref' = Trace[l]
-  /\ UNCHANGED << svars, dirty >>
+  /\ UNCHANGED << svars, dirty, nfix >>
 
 SessStart ==
   /\ IsEv("SessStart")
@@ -42,7 +44,9 @@ SessStart ==
   /\ live' = [o \in Objs |-> [t |-> 0, sect |-> 2]]
   /\ of' = [h \in Handles |-> 0]
   /\ holv' = [d \in Dates |-> 0]
+  /\ names' = 0
   /\ dirty' = {}
+  /\ nfix' = [d \in Dates |-> 0]
   /\ UNCHANGED ref
 
 \* the checks are evaluated in the state AFTER the step (primed variables)
@@ -52,7 +56,9 @@ ObsChecks(e) ==
   LET key == << e.sid, e.i, e.a >>
       \* verdict-bearing name while the object / day is untouched, extension name afterwards
       ON(o, n) == IF o \in dirty' THEN "EXT.session." \o n ELSE "C09.session." \o n
-      DN(d, n) == IF holv'[d] # 0 THEN "EXT.session." \o n ELSE "C09.session." \o n
+      \* a day with at most one fix-up: the reference was produced by the very same mutating calls, only the
+      \* interleaved reads and the calls on other days / objects differ
+      DN(d, n) == IF nfix'[d] > 1 THEN "EXT.session." \o n ELSE "C09.session." \o n
   IN
   Chk("C09.session.recovered-panic", key, (e.p = 1) = (e.a[1] = "Bad"))
   + SumN(NObj, LAMBDA o :
@@ -69,7 +75,8 @@ ObsChecks(e) ==
            IN Chk(IF k[3] # 0 THEN "EXT.session.chart-on-fixed-day" ELSE ON(of'[h], "chart-depends-on-own-object-only"),
                   << key, h, k, e.obs.chart[h] >>, e.obs.chart[h] = ref.chart[k[1]][k[2]][k[3] + 1]))
   + SumN(NDate, LAMBDA d :
-      Chk(DN(d, "holiday-day-depends-on-its-fixes-only"), << key, d, holv'[d], e.obs.hol[d] >>, e.obs.hol[d] = ref.hol[d][holv'[d] + 1]))
+      Chk(DN(d, "holiday-day-depends-on-table-state-only"), << key, d, holv'[d], names', e.obs.hol[d] >>,
+          e.obs.hol[d] = ref.hol[d][holv'[d] + 1][names' + 1]))
 
 SessStep ==
   /\ IsEv("SessStep")
@@ -79,13 +86,15 @@ SessStep ==
              [] a[1] = "Handle"  -> Handle(a[2], a[3])
              [] a[1] = "SetSect" -> SetSect(a[2], a[3])
              [] a[1] = "Fix"     -> Fix(a[2])
+             [] a[1] = "Rename"  -> Rename(a[2])
              [] a[1] = "Bad"     -> Bad
              [] OTHER -> FALSE
         /\ dirty' = IF a[1] = "SetSect" THEN dirty \cup {of[a[2]]} ELSE dirty
+        /\ nfix' = IF a[1] = "Fix" THEN [nfix EXCEPT ![FixDate(a[2])] = @ + 1] ELSE nfix
         /\ Consume(ObsChecks(e))
   /\ UNCHANGED ref
 
-TraceInit == KitInit /\ SInit /\ ref = << >> /\ dirty = {}
+TraceInit == KitInit /\ SInit /\ ref = << >> /\ dirty = {} /\ nfix = [d \in Dates |-> 0]
 TraceNext == SessRef \/ SessStart \/ SessStep
 TraceSpec == TraceInit /\ [][TraceNext]_tvars
 =============================================================================
